@@ -472,7 +472,7 @@ mod verif_kani_datetime {
     #[kani::stub(NaiveDateTime::checked_add_days, st_add_days)]
     #[kani::stub(NaiveDateTime::checked_sub_days, st_sub_days)]
     fn vk_dt_days_any_zone() { dt_steps_any_zone(2, 3); }
-    // fns: DateTime::with_time, TimeZone::from_local_datetime (every zone)
+    // fns: DateTime::with_time, TimeZone::from_local_datetime (every zone; the real offset arithmetic end to end)
     #[kani::proof]
     fn vk_dt_with_time_any_zone() {
         let (u, o, dt) = any_zoned();
@@ -492,5 +492,41 @@ mod verif_kani_datetime {
             _ => assert!(false, "with_time returns the zone's classification"),
         }
         kani::cover!(matches!(got, MappedLocalTime::Ambiguous(..))); kani::cover!(matches!(got, MappedLocalTime::None) && matches!(res, MappedLocalTime::Single(_)));
+    }
+
+    // fns: DateTime::with_time, TimeZone::from_local_datetime (every zone; the two offset shifts through their contracts)
+    // assumes: NaiveDateTime::overflowing_add_offset, NaiveDateTime::checked_sub_offset
+    #[kani::proof]
+    #[kani::stub(NaiveDateTime::overflowing_add_offset, st_overflowing_add_offset)]
+    #[kani::stub(NaiveDateTime::checked_sub_offset, st_checked_sub_offset)]
+    fn vk_dt_with_time_any_zone_light() {
+        let (u, o, dt) = any_zoned();
+        let t = NaiveTime::from_num_seconds_from_midnight_opt(kani::any(), kani::any()); kani::assume(t.is_some());
+        let got = dt.with_time(t.unwrap());
+        let w = wall_of(u, o);
+        let (calls, arg, res) = unsafe { (ZREC.loc_calls, ZREC.loc_arg, ZREC.loc_res) };
+        let (cso_calls, cso_args, cso_res) = unsafe { (OREC.cso_calls, OREC.cso_args, OREC.cso_res) };
+        let nw = w.date().and_time(t.unwrap());
+        assert!(calls == 1 && arg == Some(nw), "the zone is asked about the wall-clock date with the new time");
+        kani::cover!(matches!(got, MappedLocalTime::Ambiguous(..))); kani::cover!(matches!(got, MappedLocalTime::None) && matches!(res, MappedLocalTime::Single(_)));
+        match res {
+            MappedLocalTime::None => assert!(cso_calls == 0 && matches!(got, MappedLocalTime::None), "no such wall-clock time"),
+            MappedLocalTime::Single(x) => {
+                assert!(cso_calls == 1 && cso_args[0] == Some((nw, x)), "instant = new wall-clock reading - candidate offset");
+                match (got, cso_res[0]) {
+                    (MappedLocalTime::Single(g), Some(i0)) => assert!(g.naive_utc() == i0 && g.offset().local_minus_utc() == x, "single candidate"),
+                    (MappedLocalTime::None, None) => {}
+                    _ => assert!(false, "a single candidate is kept exactly when its instant is representable"),
+                }
+            }
+            MappedLocalTime::Ambiguous(x, y) => {
+                assert!(cso_calls == 2 && cso_args[0] == Some((nw, x)) && cso_args[1] == Some((nw, y)), "both candidates converted, in the zone's order");
+                match (got, cso_res[0], cso_res[1]) {
+                    (MappedLocalTime::Ambiguous(a, b), Some(i0), Some(i1)) => assert!(a.naive_utc() == i0 && b.naive_utc() == i1 && a.offset().local_minus_utc() == x && b.offset().local_minus_utc() == y, "both candidates, in the zone's order"),
+                    (MappedLocalTime::None, i0, i1) => assert!(i0.is_none() || i1.is_none(), "dropped only when an instant is out of range"),
+                    _ => assert!(false, "with_time returns the zone's classification"),
+                }
+            }
+        }
     }
 }
